@@ -263,6 +263,15 @@ func (c *Ctx) itemErrFlow(sp *errFlowSpec, fl *ast.FuncLit, item types.Object, k
 						}
 						return true
 					})
+				case *ast.ExprStmt:
+					// setErr(item.Err): a closure / helper storing its parameter into the sink variable
+					if call, ok := y.X.(*ast.CallExpr); ok {
+						for i, a := range call.Args {
+							if isItemErr(a) && c.storesParamIntoSink(info, call, i, sp.sinkVars, map[types.Object]bool{}) {
+								delivered = true
+							}
+						}
+					}
 				}
 				return true
 			})
